@@ -347,7 +347,7 @@ class PDDLWriter:
         # those 2 maps are "simmetrical", meaning that "(otn[k] == v) implies (nto[v] == k)"
 
         # construct keywords set
-        self.pddl_keywords = GENERAL_PDDL_KEYWORDS
+        self.pddl_keywords = set(GENERAL_PDDL_KEYWORDS)
         if len(self.problem.processes) > 0 or len(self.problem.events) > 0:
             self.pddl_keywords |= PDDL_PLUS_KEYWORDS
         if len(self.problem.trajectory_constraints) > 0:
